@@ -305,6 +305,17 @@ def exec_interleaved(case):
             for ta, tb in zip(ga, gb):
                 A.append(ta)
                 B.append(tb)
+        elif case["mode"] == "pyramids":
+            # two pyramid objects, one per system, both created before either is visited
+            from toasty.pyramid import Pyramid
+
+            pa = Pyramid.new_toast(depth, coordsys=cs_of(first))
+            pb = Pyramid.new_toast(depth, coordsys=cs_of(not first))
+            A, B = [], []
+            pa.visit_leaves(lambda pos, tile: A.append(tile), parallel=1)
+            pb.visit_leaves(lambda pos, tile: B.append(tile), parallel=1)
+            if len(A) != 4**depth or len(B) != 4**depth:
+                raise Violation("enumeration", f"visit_leaves of two depth-{depth} pyramids visited {len(A)} and {len(B)} leaves")
         else:
             A = list(toast.generate_tiles(depth, bottom_only=False, coordsys=cs_of(first)))
             single = toast.create_single_tile(Pos(*case["pos"]), coordsys=cs_of(first))
@@ -321,7 +332,7 @@ def exec_interleaved(case):
 @st.composite
 def strat_interleaved(draw, tier):
     depth = draw(st.integers(1, 4))
-    return {"depth": depth, "first_planetary": draw(st.booleans()), "mode": draw(st.sampled_from(["zip", "keep"])), "pos": draw(gens.positions(depth, 1))}
+    return {"depth": depth, "first_planetary": draw(st.booleans()), "mode": draw(st.sampled_from(["zip", "keep", "pyramids"])), "pos": draw(gens.positions(depth, 1))}
 
 
 PARTS = [
